@@ -274,6 +274,9 @@ def step (st : DState) (op impl : String) : DState × StepOut :=
           ++ (if ok1 v' then [] else [s!"C12.ok {firstBad v' timerOk}"])
           -- delivery level: a message (timer id, k) handled twice
           ++ (if deliveredOk v' then [] else ["C12.delivered handled-twice"])
+          ++ (if sentBeforeCloseOk v' then [] else ["C12.delivered sent-after-close"])
+          -- a running target has handled every attempt by the quiescent point
+          ++ (if allHandledOk v' then [] else ["C12.delivered attempt-not-handled"])
           ++ (if okPrompt1 v' then [] else [s!"C12.okPrompt {firstBad v' timerPromptOk}"])
           -- the positive half: a kill_after / exit_after that has acted and a target that is still there
           ++ (if v'.timers.all (stopsOk v') then [] else [s!"C12.stops {firstBad v' stopsOk}"])
